@@ -1,6 +1,7 @@
 """Print traced expressions as carrier-polymorphic Lean definitions."""
 from fractions import Fraction
 from expr import E, walk, TraceAbort
+from expr import fingerprint, walk
 import shim
 from shim import ND, OpMatrix, Op, DMat, Opaque
 
@@ -83,6 +84,9 @@ class Printer:
 
 
 LOCAL_NAMES = set()
+PINNED_FP = {}      # module -> {local item name: fingerprint on the pinned tree} (Spec/local_fingerprints.json)
+CURRENT_FP = {}     # the same for the current tree (written by gen.py --pin)
+RECOVERED, LOST = {}, {}
 
 
 def collect_items(m, stub, loc, ret):
@@ -109,13 +113,45 @@ def collect_items(m, stub, loc, ret):
             for f, w in v.__dict__.items():
                 add(name + '_' + f, w)
 
+    pinned = PINNED_FP.get(m['name'], {})
+    fp_memo = {}
+    index = None          # fingerprint -> node, over every sub-expression the function computed (built on first need)
     for ln in m['locals_out']:
-        if loc is None or ln not in loc:
-            raise TraceAbort('%s: local `%s` no longer exists' % (m['name'], ln))
         k0 = len(items)
-        add(ln, loc[ln])
-        for nm_, _ in items[k0:]:
+        if loc is not None and ln in loc:
+            add(ln, loc[ln])
+        else:
+            # the local was renamed or inlined: recognise it by the fingerprint it had on the pinned tree (an expression
+            # equal to it up to associativity / commutativity / x*x = x**2), otherwise the definition is simply not
+            # emitted any more - theorems that mention it by name then have no subject (reported as such)
+            want = {k: v for k, v in pinned.items() if k == ln or k.startswith(ln + '_')}
+            if index is None:
+                index = {}
+                roots = list((loc or {}).values()) + ([stub._vals[w] for w in stub._writes] if stub is not None else []) + [ret]
+                seen = set()
+                def nodes_of(v):
+                    if isinstance(v, E):
+                        yield from walk(v, seen)
+                    elif isinstance(v, ND):
+                        for k in v.keys():
+                            yield from nodes_of(v.get(k))
+                    elif isinstance(v, (list, tuple)):
+                        for w_ in v:
+                            yield from nodes_of(w_)
+                for r_ in roots:
+                    for n_ in nodes_of(r_):
+                        if n_.op not in ('num', 'sym'):
+                            index.setdefault(fingerprint(n_, fp_memo), n_)
+            found = {k: index[v] for k, v in want.items() if v in index}
+            if want and len(found) == len(want):
+                for k, node in found.items():
+                    items.append((k, node))
+                RECOVERED.setdefault(m['name'], []).append(ln)
+            else:
+                LOST.setdefault(m['name'], []).append(ln)
+        for nm_, v_ in items[k0:]:
             LOCAL_NAMES.add((m['name'], nm_))
+            CURRENT_FP.setdefault(m['name'], {})[nm_] = fingerprint(v_, fp_memo)
     if stub is not None:
         for w in dict.fromkeys(stub._writes):
             add(w, stub._vals[w])
@@ -319,5 +355,5 @@ def lean_module(m, variant_defs):
     R.append('end Gen.%s' % m['name'])
     run = '\n'.join(R) + '\n'
     meta = dict(module=m['name'], source='%s.py:%s' % (m['mod'], m['fname']), inputs=fields,
-                defs=[dict(name=en, variant=t, uses_arg=d['uses_arg']) for en, d, t in merged])
+                defs=[dict(name=en, variant=t, uses_arg=d['uses_arg'], kind=('local' if (m['name'], d['name']) in LOCAL_NAMES else 'attr')) for en, d, t in merged])
     return lean, run, meta
